@@ -172,6 +172,10 @@ def run_split(ctx, rng, thorough, case_no):
     goal = ["and"] + [list(a) for a in rng.sample(sorted(st0[0]), min(3, len(st0[0])))]
     if w.funcs:
         goal.append([">=", ["total"], "0"])
+        if rng.random() < 0.5:
+            # two numeric goals that differ only after the fourth decimal: two conditions, not a duplicate
+            goal.append(["<=", ["total"], "2.50001"])
+            goal.append(["<=", ["total"], "2.50004"])
     files_d, files_p = split_world(rng, w, st0, goal, k)
     d = os.path.join(env.scratch(), f"split{case_no}")
     os.makedirs(d, exist_ok=True)
